@@ -230,8 +230,11 @@ void RejectWriter::write_reject_file(const Hunk& hunk)
             write_patch_header_as_unified(m_patch, m_reject_file);
         write_hunk_as_unified(hunk, m_reject_file);
     } else {
+        // The header already ends with the separator for the first hunk, every hunk after that needs its own.
         if (m_rejected_hunks == 0)
             write_patch_header_as_context(m_patch, m_reject_file);
+        else
+            m_reject_file << "***************\n";
         write_hunk_as_context(hunk, m_reject_file);
     }
     ++m_rejected_hunks;
